@@ -43,6 +43,22 @@ PLAN["C09"] = {
     "note": NOTE, "technique": TECH,
 }
 
+PLAN["C11"] = {
+    "level": "proof",
+    "explanation": "IntervalTier.insertEntry (3 collision modes x 2 reporting modes) and deleteEntry proved equal to the "
+                   "list-model spec from the property text; wf of the mutated tier proved; the delete loops are "
+                   "discharged by the R-ERASE rule under the stated distinguishability precondition.",
+    "bounded": [], "quick_canaries": 3,
+    "claim": "For all well-formed interval tiers with pairwise distinguishable entries and all new entries, insertEntry "
+             "adds / replaces / merges exactly as the collision policy says, the tier stays sorted, disjoint and "
+             "inside a span grown just enough; deleteEntry removes the first entry equal to the argument or raises.",
+    "note": NOTE + "; precondition: no two entries equal under Interval.__eq__'s 1e-9 tolerance (the sliver region "
+                   "is exercised by the bounded check c10_setops and recorded as a known finding); "
+                   "collisionReportingMode='error' is outside the documented Literal and excluded; "
+                   "PointTier.insertEntry is covered by the bounded layer only",
+    "technique": TECH,
+}
+
 NOT_CLAIMED = {}
 
 U = "praatio/utilities/utils.py"
@@ -87,6 +103,15 @@ CANARIES = [
      "config": ["collisionMode=split"]},
     {"name": "pspace-boundary", "props": ["C08"], "file": PT, "target": PTC + ".insertSpace",
      "old": "if point.time <= start:", "new": "if point.time < start:"},
+    {"name": "insert-span-elif", "props": ["C11", "C05"], "file": IT, "target": ITC + ".insertEntry",
+     "old": "        if self._entries[-1][1] > self.maxTimestamp:", "new": "        elif self._entries[-1][1] > self.maxTimestamp:",
+     "config": ["collisionMode=replace,collisionReportingMode=silence"]},
+    {"name": "insert-merge-extent", "props": ["C11", "C10"], "file": IT, "target": ITC + ".insertEntry",
+     "old": "max([tmpInterval.end for tmpInterval in matchList]),", "new": "matchList[-1].end,",
+     "config": ["collisionMode=merge,collisionReportingMode=silence"]},
+    {"name": "insert-no-sort", "props": ["C11", "C05"], "file": IT, "target": ITC + ".insertEntry",
+     "old": "        self.sort()\n\n        if self._entries[0][0]", "new": "        if self._entries[0][0]",
+     "config": ["collisionMode=error,collisionReportingMode=silence"]},
     {"name": "ctor-no-sort", "props": ["C05"], "file": IT, "target": ITC + ".__init__",
      "old": "    processedEntries.sort()\n    return processedEntries", "new": "    return processedEntries"},
 ]
